@@ -71,7 +71,6 @@ var (
 	IsTimeout       = os.IsTimeout
 	IsPathSeparator = os.IsPathSeparator
 	NewSyscallError = os.NewSyscallError
-	SameFile        = os.SameFile
 
 	Interrupt = os.Interrupt
 	Kill      = os.Kill
@@ -560,6 +559,31 @@ type fileInfo struct {
 	size int64
 	dir  bool
 	mode uint32
+	ino  int   // identity of the file: its node slot (never reused within a run), -1 unknown
+	gen  int64 // content generation of the node when the info was taken
+}
+
+// SameFile reports whether two FileInfos of the simulated file system
+// describe the same file (the same node: a file renamed over another one is
+// a different file under the same name); other FileInfos go to os.SameFile.
+//
+//go:norace
+func SameFile(a, b FileInfo) bool {
+	fa, oka := a.(fileInfo)
+	fb, okb := b.(fileInfo)
+	if oka && okb {
+		return fa.ino >= 0 && fa.ino == fb.ino
+	}
+	return os.SameFile(a, b)
+}
+
+//go:norace
+func (kk *kernel) identOf(p string) (int, int64) {
+	i := kk.lookup(p)
+	if i < 0 {
+		return -1, 0
+	}
+	return i, kk.nodes[i].gen
 }
 
 //go:norace
@@ -577,8 +601,10 @@ func (fi fileInfo) Mode() FileMode {
 	return m
 }
 
+// ModTime moves with every change of the file's content (microsecond steps).
+//
 //go:norace
-func (fi fileInfo) ModTime() time.Time { return time.Unix(1_700_000_000, 0) }
+func (fi fileInfo) ModTime() time.Time { return time.Unix(1_700_000_000, fi.gen*1000) }
 
 //go:norace
 func (fi fileInfo) IsDir() bool { return fi.dir }
@@ -598,10 +624,10 @@ func (f *File) Stat() (FileInfo, error) {
 		return nil, err
 	}
 	if f.stream != 0 {
-		return fileInfo{name: filepath.Base(f.name)}, nil
+		return fileInfo{name: filepath.Base(f.name), ino: -1}, nil
 	}
 	n := &k.nodes[f.node]
-	return fileInfo{name: filepath.Base(f.path), size: k.size(f), dir: n.dir, mode: n.mode}, nil
+	return fileInfo{name: filepath.Base(f.path), size: k.size(f), dir: n.dir, mode: n.mode, ino: f.node, gen: n.gen}, nil
 }
 
 //go:norace
@@ -664,7 +690,8 @@ func Stat(name string) (FileInfo, error) {
 		return nil, perr("stat", name, e)
 	}
 	k.leave(d)
-	return fileInfo{name: filepath.Base(p), size: size, dir: dir, mode: mode}, nil
+	ino, gen := k.identOf(p)
+	return fileInfo{name: filepath.Base(p), size: size, dir: dir, mode: mode, ino: ino, gen: gen}, nil
 }
 
 //go:norace
@@ -895,7 +922,8 @@ func ReadDir(name string) ([]DirEntry, error) {
 	var out []DirEntry
 	for _, n := range names {
 		_, cdir, size, mode := k.statNode(filepath.Join(p, n))
-		out = append(out, dirEntry{fileInfo{name: n, size: size, dir: cdir, mode: mode}})
+		ino, gen := k.identOf(filepath.Join(p, n))
+		out = append(out, dirEntry{fileInfo{name: n, size: size, dir: cdir, mode: mode, ino: ino, gen: gen}})
 	}
 	k.leave(d)
 	return out, nil
